@@ -172,6 +172,20 @@ def kani(P, u, prop):
 #[kani::proof]
 pub fn pcmp_h() { let a = oracle::mk(&mut KaniSrc); let b = oracle::mk(&mut KaniSrc); let r = PartialOrd::partial_cmp(&a, &b); assert!(r == oracle::ord(&a, &b), "contract: partial_cmp(a, b) == oracle::ord(a, b)"); kani::cover!(true); }
 """)
+        if P.tags.get("neighbours"):
+            u.kani_harness.append("""
+#[repr(C)]
+pub struct Wrap { pub pad0: [u8; 3], pub e: TI, pub pad1: [u8; 7] }
+#[kani::proof]
+pub fn pcmp_nb_h() {
+    let a = Wrap { pad0: kani::any(), e: oracle::mk(&mut KaniSrc), pad1: kani::any() };
+    let b = Wrap { pad0: kani::any(), e: oracle::mk(&mut KaniSrc), pad1: kani::any() };
+    let r = PartialOrd::partial_cmp(&a.e, &b.e);
+    assert!(r == oracle::ord(&a.e, &b.e), "contract: partial_cmp does not depend on the bytes next to the value");
+    kani::cover!(true);
+}
+""")
+            u.kani_obls["pcmp_nb_h"] = ("%s/%s/PartialOrd::partial_cmp/neighbour-bytes" % (tagp, P.pid), "partial_cmp(&w1.e, &w2.e) == oracle::ord for all neighbour bytes")
         u.kani_obls["pcmp_h"] = ("%s/%s/PartialOrd::partial_cmp/contract" % (tagp, P.pid), "partial_cmp(a, b) == oracle::ord(a, b)")
         u.replay.append('let a = oracle::mk(s); let b = oracle::mk(s);\n'
                         '    chk(out, "a.partial_cmp(&b)", a.partial_cmp(&b), oracle::ord(&a, &b));\n'
@@ -183,6 +197,20 @@ pub fn cmp_h() { let a = oracle::mk(&mut KaniSrc); let b = oracle::mk(&mut KaniS
 #[kani::proof]
 pub fn pcmp_h() { let a = oracle::mk(&mut KaniSrc); let b = oracle::mk(&mut KaniSrc); let r = PartialOrd::partial_cmp(&a, &b); assert!(r == Some(oracle::ord(&a, &b)), "contract: partial_cmp(a, b) == Some(oracle::ord(a, b))"); kani::cover!(true); }
 """)
+        if P.tags.get("neighbours"):
+            u.kani_harness.append("""
+#[repr(C)]
+pub struct Wrap { pub pad0: [u8; 3], pub e: TI, pub pad1: [u8; 7] }
+#[kani::proof]
+pub fn cmp_nb_h() {
+    let a = Wrap { pad0: kani::any(), e: oracle::mk(&mut KaniSrc), pad1: kani::any() };
+    let b = Wrap { pad0: kani::any(), e: oracle::mk(&mut KaniSrc), pad1: kani::any() };
+    let r = Ord::cmp(&a.e, &b.e);
+    assert!(r == oracle::ord(&a.e, &b.e), "contract: cmp does not depend on the bytes next to the value");
+    kani::cover!(true);
+}
+""")
+            u.kani_obls["cmp_nb_h"] = ("%s/%s/Ord::cmp/neighbour-bytes" % (tagp, P.pid), "cmp(&w1.e, &w2.e) == oracle::ord for all neighbour bytes in a #[repr(C)] wrapper")
         u.kani_obls["cmp_h"] = ("%s/%s/Ord::cmp/contract" % (tagp, P.pid), "cmp(a, b) == oracle::ord(a, b)")
         u.kani_obls["pcmp_h"] = ("%s/%s/PartialOrd::partial_cmp/contract" % (tagp, P.pid), "partial_cmp(a, b) == Some(oracle::ord(a, b))")
         u.replay.append('let a = oracle::mk(s); let b = oracle::mk(s);\n'
